@@ -42,6 +42,8 @@ def configs(tier):
     for n in range(1, nmax + 1):
         cfgs.append(dict(group='constant_stream_variance', n=n))
     cfgs.append(dict(group='textbook_variance_is_refuted'))
+    for cls in ('IncrementalPFI', 'IncrementalSage'):
+        cfgs.append(dict(group='explainer_offset', cls=cls, _cost=100))
     return cfgs
 
 
@@ -137,3 +139,85 @@ def _textbook_variance_is_refuted(env, cfg):
     var = s2 / 3 - mean * mean
     env.canary('textbook_formula_not_exactly_zero', eq(_val(var), 0))
     env.claim('canary_executed', True)
+
+
+# ---- explainer level: the error of the importance does not grow with a common offset of the loss values ----------------
+
+K_EXPLAINER = 16      # |importance_hat - importance| <= K * u * max|contribution| after two explained observations
+
+
+def _mk_explainer(cls_name, losses):
+    from ixai.explainer import IncrementalPFI, IncrementalSage
+    from ixai.imputer import DefaultImputer
+    from ixai.storage import BatchStorage
+    it = iter(losses)
+
+    def model(x):
+        return {'output': 0.0}
+
+    def loss(y_true, y_pred):
+        return next(it)
+    cls = IncrementalPFI if cls_name == 'IncrementalPFI' else IncrementalSage
+    ex = cls(model, loss, ['f'], storage=BatchStorage(), imputer=DefaultImputer(model, {'f': 0.0}), n_inner_samples=1,
+             dynamic_setting=False)
+    ex._variance_trackers.update = lambda values: None     # not part of this obligation (keeps the rounding terms few)
+    return ex
+
+
+def _loss_order(cls_name):
+    """which loss invocations of one explained observation form the feature's contribution (first - second)"""
+    # PFI: original loss, imputed loss  -> contribution = imputed - original
+    # SAGE (d = 1): model loss, marginal-prediction loss, coalition loss (empty complement = model prediction)
+    return ('imputed_minus_original' if cls_name == 'IncrementalPFI' else 'marginal_minus_coalition')
+
+
+def _explainer_offset(env, cfg):
+    if env.mode != 'sym':
+        return _explainer_offset_replay(env, cfg)
+    name = cfg['cls']
+    B = env.real('B')
+    env.assume(B >= 1)
+    n_loss = 2 if name == 'IncrementalPFI' else 3
+    losses, smalls = [], []
+    for t in range(2):
+        for j in range(n_loss):
+            s = env.real(f"s{t}_{j}")
+            env.assume(within(s, 1))
+            smalls.append(s)
+            losses.append(FPSym((B + s).t))
+    ex = guarded(env, 'ctor', _mk_explainer, name, losses)
+    guarded(env, 'explain_one', ex.explain_one, {'f': 1.0}, 0.0)         # seeds the storage only
+    contribs = []
+    for t in range(2):
+        guarded(env, 'explain_one', ex.explain_one, {'f': 1.0}, 0.0)
+        s = smalls[t * n_loss:(t + 1) * n_loss]
+        contribs.append(s[1] - s[0] if name == 'IncrementalPFI' else s[1] - s[2])
+    exact = (contribs[0] + contribs[1]) / 2
+    got = _val(ex.importance_values['f'])
+    env.claim('importance_error_independent_of_the_loss_offset', within(got - exact, K_EXPLAINER * U * 2),
+              detail='|importance_hat - importance| <= 16 u max|contribution| for every common offset B of the loss values')
+    env.canary('not_exact', eq(got, exact))
+
+
+def _explainer_offset_replay(env, cfg):
+    """concrete binary64 experiment: the same two explained observations with a large common loss offset"""
+    import random as _r
+    name = cfg['cls']
+    rng = _r.Random(3)
+    worst = 0.0
+    for B in (2.0 ** 30, 1e8, 2.0 ** 40):
+        n_loss = 2 if name == 'IncrementalPFI' else 3
+        losses = [B + rng.random() for _ in range(2 * n_loss)]
+        ex = _mk_explainer(name, list(losses))
+        ex.explain_one({'f': 1.0}, 0.0)
+        cs = []
+        for t in range(2):
+            ex.explain_one({'f': 1.0}, 0.0)
+            L = [Fraction(v) for v in losses[t * n_loss:(t + 1) * n_loss]]
+            cs.append(L[1] - L[0] if name == 'IncrementalPFI' else L[1] - L[2])
+        exact = (cs[0] + cs[1]) / 2
+        err = abs(Fraction(float(ex.importance_values['f'])) - exact)
+        bound = K_EXPLAINER * U * 2 * max(abs(c) for c in cs + [Fraction(1)])
+        worst = max(worst, float(err / bound))
+    env.claim('importance_error_independent_of_the_loss_offset', worst <= 1.0,
+              detail=f"binary64 run with loss offsets up to 2^40: error / allowed bound = {worst:.3g}")
